@@ -576,7 +576,7 @@ func blockContainerLayout(context *layoutContext, box_ Box, bottomSpace pr.Float
 		}
 	}
 
-	if nextPage.Page == "" {
+	if nextPage.Page == "" && !nextPage.PageChanged {
 		_, nextPage.Page = newBox.PageValues()
 	}
 
@@ -839,10 +839,10 @@ func inFlowLayout(context *layoutContext, box_ bo.Box, index int, child_ Box, ne
 	if lastInFlowChild != nil {
 		// Between in-flow siblings
 		pageBreak = blockLevelPageBreak(lastInFlowChild, child_)
-		pageName_ := blockLevelPageName(lastInFlowChild, child_)
-		if pageName_ != "" || forcePageBreak(pageBreak, context) {
+		_, pageChanged := blockLevelPageName(lastInFlowChild, child_)
+		if pageChanged || forcePageBreak(pageBreak, context) {
 			pageName, _ := child.PageValues()
-			nextPage = tree.PageBreak{Break: pageBreak, Page: pageName}
+			nextPage = tree.PageBreak{Break: pageBreak, Page: pageName, PageChanged: pageChanged}
 			resumeAt = tree.ResumeStack{index: nil}
 			stop = true
 			return abort, stop, resumeAt, positionY, *adjoiningMargins, nextPage, newChildren, maxLines
@@ -1118,13 +1118,15 @@ func blockLevelPageBreak(siblingBefore, siblingAfter Box) string {
 
 // Return the next page name when siblings don't have the same names,
 // or the zero value.
-func blockLevelPageName(siblingBefore, siblingAfter Box) pr.Page {
+// The returned boolean is true when the names differ (the next page name may be empty,
+// for the unnamed page).
+func blockLevelPageName(siblingBefore, siblingAfter Box) (pr.Page, bool) {
 	_, beforePage := siblingBefore.PageValues()
 	afterPage, _ := siblingAfter.PageValues()
 	if beforePage != afterPage {
-		return afterPage
+		return afterPage, true
 	}
-	return ""
+	return "", false
 }
 
 // Find the last possible page break in “children“
